@@ -57,6 +57,7 @@ func runAcceptSeq(seq []string) (trace string, wall time.Duration, err error) {
 		return nil, nil
 	}
 	l := rec.NewListener()
+	l.CloseDelay = 20 * time.Millisecond
 	var conns []*rec.Conn
 	var clients []*rec.MemConn
 	shutdownDone := make(chan error, 4)
@@ -283,7 +284,7 @@ func runC17(r *Result, d *drv.Driver, tier string, seed int64, replay string) {
 		maxLen = 6
 	}
 	r.Rule = fmt.Sprintf("exhaustive: every sequence up to length %d over {temporary error, successful accept, permanent error, failure caused by Shutdown, connection accepted after Shutdown was signalled} (sequences end at the first terminal letter), "+
-		"injected through the net.Listener given to the real Serve (handed over as a pointer or wrapped by value; closing it a second time reports nil, net.ErrClosed or an error of its own, by the length of the sequence); plus one run of 10 consecutive temporary errors reaching the 1 s cap. Observed: back-off delays (from the server's log, and the wall clock as lower bound), sessions started with their numbers, late connections closed, Serve's return value; compared with the model. distinct = one per sequence; non-trivial = length > 1", maxLen)
+		"injected through the net.Listener given to the real Serve (handed over as a pointer or wrapped by value; closing it a second time reports nil, net.ErrClosed or an error of its own, by the length of the sequence; its Close wakes Accept at once and returns 20 ms later); plus one run of 10 consecutive temporary errors reaching the 1 s cap. Observed: back-off delays (from the server's log, and the wall clock as lower bound), sessions started with their numbers, late connections closed, Serve's return value; compared with the model. distinct = one per sequence; non-trivial = length > 1", maxLen)
 	r.Exhaustive = true
 	var seqs [][]string
 	var gen func(prefix []string, conn int)
